@@ -47,6 +47,33 @@ func tokenDecoder(v interface{}) (*xml.Decoder, error) {
 	return xml.NewDecoder(&b), nil
 }
 
+// tokenDecoderElement is like tokenDecoder except that values that are
+// marshaled with the encoding/xml package use start as their outermost tag.
+func tokenDecoderElement(v interface{}, start xml.StartElement) (*xml.Decoder, error) {
+	// Values that create their own token stream have no use for start.
+	if m, ok := v.(xmlstream.Marshaler); ok {
+		return xml.NewTokenDecoder(m.TokenReader()), nil
+	}
+	if r, ok := v.(xml.TokenReader); ok {
+		return xml.NewTokenDecoder(r), nil
+	}
+
+	var b bytes.Buffer
+	e := xml.NewEncoder(&b)
+	// Accept the same values as Encode does: a value that cannot be marshaled
+	// on its own (eg. because it has no name) is still an error.
+	err := e.Encode(v)
+	if err != nil {
+		return nil, err
+	}
+	b.Reset()
+	err = e.EncodeElement(v, start)
+	if err != nil {
+		return nil, err
+	}
+	return xml.NewDecoder(&b), nil
+}
+
 // nsTokenReader reads namespace-resolved tokens from a decoder and removes the
 // namespace declarations from start elements.
 // The encoder that the tokens are copied to declares namespaces itself based
@@ -115,7 +142,7 @@ func EncodeXMLElement(w xmlstream.TokenWriter, v interface{}, start xml.StartEle
 		_, err := wt.WriteXML(w)
 		return err
 	}
-	d, err := tokenDecoder(v)
+	d, err := tokenDecoderElement(v, start)
 	if err != nil {
 		return err
 	}
